@@ -1,0 +1,44 @@
+//go:build verif
+
+// Contracts for package fs, checked by /verif/govc (comment-only; not part of any normal build).
+
+package fs
+
+// ---- C03: the file a key name addresses is <key directory>/<the name as the wrapper validated it>_<entry>:
+// nothing decodes, normalises or rewrites the name between the pattern check and the file system ----
+
+//@ func getEntryFileName
+//@   prop C03
+//@   modifies nothing
+//@   ensures [the-name-as-given] did(call fmt.Sprintf #1) && result == ret(call fmt.Sprintf #1) && arg(call fmt.Sprintf #1, 0) == "%s_%s"
+//@        && len(arg(call fmt.Sprintf #1, 1)) == 2 && arg(call fmt.Sprintf #1, 1)[0] == any(kid) && arg(call fmt.Sprintf #1, 1)[1] == any(entryType)
+
+//@ func (fileSystemBackend).getEntryPath
+//@   prop C03
+//@   modifies nothing
+//@   ensures [inside-the-key-directory] did(call path/filepath.Join #1) && result == ret(call path/filepath.Join #1) && len(arg(call path/filepath.Join #1, 0)) == 2
+//@        && arg(call path/filepath.Join #1, 0)[0] == fsc.fspath && arg(call path/filepath.Join #1, 0)[1] == ret(call getEntryFileName #1)
+//@        && arg(call getEntryFileName #1, 0) == kid && arg(call getEntryFileName #1, 1) == entryType
+
+// Every file operation of the backend goes to the path of the private key entry of the name it was asked for.
+//@ func (fileSystemBackend).PrivateKeyExists
+//@   prop C03
+//@   call os.Stat #1 requires [the-entry-of-this-name] arg(0) == ret(call (fileSystemBackend).getEntryPath #1) && arg(call (fileSystemBackend).getEntryPath #1, 1) == keyName
+//@        && arg(call (fileSystemBackend).getEntryPath #1, 2) == privateKeyEntry && arg(call (fileSystemBackend).getEntryPath #1, 0) == fsc
+//@ func (fileSystemBackend).readEntry
+//@   prop C03
+//@   call os.ReadFile #1 requires [the-entry-of-this-name] arg(0) == ret(call (fileSystemBackend).getEntryPath #1) && arg(call (fileSystemBackend).getEntryPath #1, 1) == kid
+//@        && arg(call (fileSystemBackend).getEntryPath #1, 2) == entryType && arg(call (fileSystemBackend).getEntryPath #1, 0) == fsc
+//@ func (fileSystemBackend).GetPrivateKey
+//@   prop C03
+//@   ensures [read-from-the-entry-of-this-name] did(call (fileSystemBackend).readEntry #1) && arg(call (fileSystemBackend).readEntry #1, 1) == keyName
+//@        && arg(call (fileSystemBackend).readEntry #1, 2) == privateKeyEntry && arg(call (fileSystemBackend).readEntry #1, 0) == fsc
+//@ func (fileSystemBackend).SavePrivateKey
+//@   prop C03
+//@   call os.OpenFile #1 requires [the-entry-of-this-name-never-overwritten] arg(0) == ret(call (fileSystemBackend).getEntryPath #1) && arg(call (fileSystemBackend).getEntryPath #1, 1) == kid
+//@        && arg(call (fileSystemBackend).getEntryPath #1, 2) == privateKeyEntry && arg(call (fileSystemBackend).getEntryPath #1, 0) == fsc
+//@        && arg(1) & os.O_EXCL != 0 && arg(2) == os.FileMode(0600)
+//@ func (fileSystemBackend).DeletePrivateKey
+//@   prop C03
+//@   call os.Remove #1 requires [the-entry-of-this-name] arg(0) == ret(call (fileSystemBackend).getEntryPath #1) && arg(call (fileSystemBackend).getEntryPath #1, 1) == keyName
+//@        && arg(call (fileSystemBackend).getEntryPath #1, 2) == privateKeyEntry && arg(call (fileSystemBackend).getEntryPath #1, 0) == fsc
